@@ -20,9 +20,9 @@ def tup(n):
     return "Tuple[" + ", ".join(["int"] * max(1, n)) + "]"
 
 
-def ob(name, script, L, TL, timeout=300, fill=""):
-    return vf.CH(f"C20.a script {name} L={L} |title|={TL}" + (f" +{len(fill)}-char filler" if fill else ""), "c20_writer.py",
-                 dict(SCRIPT=script, L=L, TL=TL, NCP=count(script) * L, TT=tup(TL), FILL=fill), timeout=timeout, encodes=ENC,
+def ob(name, script, L, TL, timeout=300, fill="", during=False):
+    return vf.CH(f"C20.a script {name} L={L} |title|={TL}" + (f" +{len(fill)}-char filler" if fill else "") + (" serialised after every step" if during else ""), "c20_writer.py",
+                 dict(SCRIPT=script, L=L, TL=TL, NCP=count(script) * L, TT=tup(TL), FILL=fill, DURING=during), timeout=timeout, encodes=ENC,
                  symbolic="every string passed to the writer API (names, arguments, option names/values, paragraph lines incl. leading spaces, list items), two titles, two header characters",
                  bound=f"construction script {script!r}; pieces of exactly {L} chars; titles of {TL} chars")
 
@@ -46,6 +46,9 @@ def build(tier):
     obs = []
     for name, sc in SCRIPTS.items():
         obs.append(ob(name, sc, 2 if quick else 3, 3 if quick else 5, timeout=300 if quick else 1800))
+    # histories: the document is serialised (to_text and str) after every construction step; later serialisations are unaffected
+    for name in (("dir2", "dir3", "section") if quick else ("flat", "dir1", "dir-late-options", "dir2", "dir3", "siblings", "section")):
+        obs.append(ob(name, SCRIPTS[name], 1 if quick else 2, 2, timeout=300 if quick else 1800, during=True))
     obs.append(ob("dir2", SCRIPTS["dir2"], 1, 3, timeout=300 if quick else 1800, fill="z" * 150))
     if not quick:
         obs.append(ob("dir3-long", SCRIPTS["dir3"], 6, 8, timeout=2400))
